@@ -26,6 +26,7 @@ ASSUMPTIONS = ["SimTransport.peer_data == one TCP segment arriving (data_receive
                "baseline cross-checked against refproto's frame count/order"]
 REQUIRED_OBS = ["sends_between_segments", "segmentations_ok", "cuts_inside_header", "cuts_inside_crc", "byte_at_a_time",
                 "slow_subscriber_runs"]
+SOAK = True   # also judged by the whole-run monitors of the soak sessions (vf/soak.py)
 BUDGET = {"quick": 100, "thorough": 1500}
 
 GAPS = ["same_turn", "turn1", "turn3", "quiesce", "delay", "long_delay"]
